@@ -746,9 +746,11 @@ func (g *wgen) group(s *scanSpec, name string, idx int, others []string) {
 		case 3:
 			if len(a.Instances) > 0 {
 				aws.TermInAsgFail = append(aws.TermInAsgFail, a.Instances[rng.Intn(len(a.Instances))].ID)
+				aws.ErrCode = pickS(rng, "", "ValidationError", "Throttling")
 			}
 		case 4:
 			aws.SetDesiredFail = true
+			aws.ErrCode = pickS(rng, "", "ValidationError", "RequestLimitExceeded")
 		case 5:
 			aws.DescInstFail = true
 		case 6: // the lister shows a node the API server no longer holds / holds differently: handled by the caller through s.API
